@@ -96,13 +96,13 @@ func dealPS(n, t, msgLen int) (map[uint16][]byte, []uint16, error) {
 }
 
 func unitC18deal(e common.Env, p *common.Part) {
-	p.Rule = "(i) secrets dealt with the exported SSS.Gen (BLS: one polynomial; PS: x and every y_j), shares wrapped as stored data, then for every (n,t) with 2<=t<=n<=N and EVERY subset of size >= t (PRNG order of signers) the partial signatures are aggregated with the library's Lagrange coefficients and verified under g2^P(0): BLS N=7 quick / 9 thorough, PS N=5 quick / 6 thorough; distinct key = (scheme, n, t, subset); non-trivial always; the subset space of each (scheme,n,t) is enumerated completely"
+	p.Rule = "(i) secrets dealt with the exported SSS.Gen (BLS: one polynomial; PS: x and every y_j), shares wrapped as stored data, then for every (n,t) with 2<=t<=n<=N and EVERY subset of size >= t (PRNG order of signers) the partial signatures are aggregated with the library's Lagrange coefficients and verified under g2^P(0): BLS N=7 quick / 10 thorough, PS N=5 quick / 6 thorough; distinct key = (scheme, n, t, subset); non-trivial always; the subset space of each (scheme,n,t) is enumerated completely"
 	type job struct {
 		sch  string
 		n, t int
 	}
 	var jobs []job
-	for n := 2; n <= e.Pick(7, 9); n++ {
+	for n := 2; n <= e.Pick(7, 10); n++ {
 		for t := 2; t <= n; t++ {
 			jobs = append(jobs, job{"bls", n, t})
 		}
